@@ -1474,6 +1474,12 @@ def run_history(scen):
             except Exception as e:  # noqa
                 sg = ('build-error', type(e).__name__)
             want = fresh_sig(desc[s], hk)
+            if want[0] == 'build-error':
+                # make_converter raises for this type: nothing is memoised, so the cache machine has no step for it
+                # (a type object the cache does not pin may be freed and its address reused).  Observed directly only.
+                if sg != want:
+                    notes.append(f'call on slot {s} (type #{desc[s]}, handlers #{hk}) gave {sg!r}; building afresh fails with {want!r}')
+                continue
             if sg == want:
                 obs.append([desc[s], hid])
             else:
